@@ -57,7 +57,7 @@ Polled == /\ R.e = "polled"
           /\ UNCHANGED <<cfg, pendDir, pendPeer, estPeer, estDir, banned>>
 Skip == /\ \/ R.e \in {"envIncoming", "envDial", "envUpgrade", "failMux", "close", "disconnect", "behClose", "behCloseAll", "keepAlive", "end",
                        "cbNewListener", "cbNewListenAddr", "cbExpiredListenAddr", "cbListenerError", "cbListenerClosed", "cbAddressChange", "cbOther",
-                       "hLocalProto", "hRemoteProto", "emitQueued", "bEmit", "hEvent", "emitF", "hEmit", "hRequestOut", "hStream"}
+                       "hLocalProto", "hRemoteProto", "emitQueued", "bEmit", "hEvent", "emitF", "hEmit", "hRequestOut", "hStream", "ranTask"}
            \/ (R.e = "swarmEvent" /\ R.kind # "incoming")
         /\ UNCHANGED <<cfg, pendDir, pendPeer, estPeer, estDir, banned>>
 Next == l <= NRec /\ l' = l + 1 /\ (Reset \/ Dial \/ DialRet \/ Incoming \/ Fail \/ Est \/ Closed \/ ListChange \/ Snap \/ Polled \/ Skip)
